@@ -2,6 +2,7 @@
 //! attributed to a known cause only if the program has the triggering shape AND the
 //! disagreement has the recorded form. Everything else stays unattributed (= new violation).
 
+use crate::apgen::pipeline_ordered;
 use crate::model::*;
 use crate::relcheck::{Finding, Kind, Outcome};
 
@@ -224,6 +225,25 @@ pub fn c01_key(f: &Finding, p: &Program, _o: &Outcome) -> Option<String> {
             // an alias re-using a column name next to a wildcard: the wildcard's column and a helper come back
             if shadowing_alias(p) && f.sql.contains("_expr_") && f.sql.contains("SELECT *") {
                 return Some("column-lost-when-alias-reuses-existing-name".into());
+            }
+            // `take` on the order inherited from a sorted let-table, then a new sort, then another take: both
+            // takes end up in one SELECT under the later ORDER BY, the first selection is lost
+            {
+                let steps: Vec<&Step> = p.main.iter().flat_map(|m| m.steps.iter()).collect();
+                let inherited = p.main.as_ref().map(|m| match &m.src {
+                    Source::Let(i) => pipeline_ordered(&p.lets[*i].1, p),
+                    _ => false,
+                }).unwrap_or(false);
+                let t1 = steps.iter().position(|s| matches!(s, Step::Take(..)));
+                if let (true, Some(t1)) = (inherited, t1) {
+                    let own_sort_before = steps[..t1].iter().any(|s| is_sort(s));
+                    let later = steps[t1 + 1..].iter().position(|s| is_sort(s)).map(|k| t1 + 1 + k);
+                    if let (false, Some(s2)) = (own_sort_before, later) {
+                        if steps[s2 + 1..].iter().any(|s| matches!(s, Step::Take(..))) && f.sql.matches("LIMIT").count() + f.sql.matches("OFFSET").count() <= 1 {
+                            return Some("take-on-inherited-order-merged-with-take-after-later-sort".into());
+                        }
+                    }
+                }
             }
             // ungrouped aggregate applied to the single row of an earlier ungrouped aggregate
             let top: Vec<&Step> = p.main.iter().flat_map(|m| m.steps.iter()).collect();
